@@ -199,7 +199,7 @@ def canon_impl_ret(ev, rec):
         op = p[2]
         if code == 5:
             vals = ret[1:]
-            if op == "get_ref":
+            if op in ("get_ref", "hold_ref"):
                 vals = vals[:1]
             if op == "multi_get":
                 vals = vals[1::2]
